@@ -109,6 +109,14 @@ def cases(rng, tier):
                 for sd in (0, 1):
                     yield ("find_cuts", {"nq": nq_, "instrs": [{"name": n_, "qubits": [a_, b_]} for n_, a_, b_ in gl], "seed": sd, "max_gamma": 1e6,
                                          "max_backjumps": bj, "gate_lo": glo, "wire_lo": wlo, "width": 2, "exact": True, "always_oracle": True})
+    # wire cuts only, a gamma limit far below the optimum, and an optimum that needs fewer wire cuts than the greedy answer: the flag may only be set
+    # with the minimum (the wire budget must not be derived from the user's limit)
+    for gl in ([("swap", 0, 3), ("cx", 0, 2), ("swap", 1, 3), ("swap", 0, 1), ("cx", 2, 1)],
+               [("swap", 1, 2), ("cx", 1, 3), ("swap", 0, 2), ("swap", 1, 0), ("cx", 3, 0)]):
+        for mg in (1.0, 2.0, 3.0, 15.0):
+            for sd in (0, 1, 2):
+                yield ("find_cuts", {"nq": 4, "instrs": [{"name": n_, "qubits": [a_, b_]} for n_, a_, b_ in gl], "seed": sd, "max_gamma": mg,
+                                     "max_backjumps": None, "gate_lo": False, "wire_lo": True, "width": 3, "exact": True, "always_oracle": True})
     # gamma limits that admit fewer cuts than the circuit needs (the wire budget of the search must come from the greedy incumbent, not from the limit)
     for p in cutfind.family_tight_gamma():
         yield ("find_cuts", p)
